@@ -1,14 +1,17 @@
 package main
 
 import (
+	"context"
 	"fmt"
 	"sort"
 	"strings"
 	"sync"
 	"time"
 
+	"cuelang.org/go/internal/mod/modrequirements"
 	"cuelang.org/go/internal/mod/mvs"
 	"cuelang.org/go/internal/mod/semver"
+	"cuelang.org/go/mod/modfile"
 	"cuelang.org/go/mod/module"
 )
 
@@ -460,8 +463,129 @@ func mvsCases(c *Cfg, r *Rng) {
 	}
 }
 
+// ---- the production path: modrequirements.Requirements.Graph ---------------------
+//
+// The module loader does not call mvs.BuildList: it builds the (pruned) graph "main module
+// requires the root list; every root's own requirements are loaded" through
+// Requirements.Graph → readModGraph → mvs.Graph + par.Queue.  The same model answers for it
+// when the graph handed to the model has edges for the main module and the roots only.
+
+type reqRegistry struct {
+	g     *mvsGraph
+	r     *Rng
+	mu    sync.Mutex
+	delay bool
+}
+
+func (q *reqRegistry) ModFile(ctx context.Context, mv module.Version) (*modfile.File, error) {
+	n := fromVersion(mv)
+	q.mu.Lock()
+	d := time.Duration(0)
+	if q.delay {
+		d = time.Duration(q.r.Intn(200)) * time.Microsecond
+	}
+	q.mu.Unlock()
+	if d > 0 {
+		time.Sleep(d)
+	}
+	var sb strings.Builder
+	fmt.Fprintf(&sb, "module: %q\nlanguage: version: \"v0.9.0\"\n", mv.Path())
+	for _, e := range q.g.edges[n] {
+		v := toVersion(e)
+		fmt.Fprintf(&sb, "deps: %q: v: %q\n", v.Path(), v.Version())
+	}
+	return modfile.Parse([]byte(sb.String()), "cue.mod/module.cue")
+}
+
+func reqCases(c *Cfg, r *Rng) {
+	n := c.Pick(1200, 30000)
+	for i := 0; i < n; i++ {
+		g := genGraph(r.Sub())
+		// a module file has one version per dependency path: drop later duplicates
+		for k, reqs := range g.edges {
+			seen := map[int]bool{}
+			var out [][2]int
+			for _, e := range reqs {
+				if !seen[e[0]] && e[0] != 0 {
+					seen[e[0]] = true
+					out = append(out, e)
+				}
+			}
+			g.edges[k] = out
+		}
+		// root list: the main module's requirements plus, sometimes, further versions of the
+		// same paths (the transient state inside an update) and unrelated extra roots
+		var roots [][2]int
+		seen := map[[2]int]bool{}
+		add := func(e [2]int) {
+			if e[0] != 0 && !seen[e] {
+				seen[e] = true
+				roots = append(roots, e)
+			}
+		}
+		for _, e := range g.edges[[2]int{0, mainRank}] {
+			add(e)
+		}
+		for k := range g.edges {
+			if k[0] != 0 && r.Chance(1, 3) {
+				add(k)
+			}
+		}
+		if len(roots) > 0 && r.Chance(1, 2) {
+			e := Pick(r, roots)
+			add([2]int{e[0], 1 + r.Intn(len(rankVersions))})
+		}
+		var rootVs []module.Version
+		for _, e := range roots {
+			rootVs = append(rootVs, toVersion(e))
+		}
+		module.Sort(rootVs)
+		// the graph the model sees: main → roots, root → its requirements, nothing deeper
+		pr := &mvsGraph{edges: map[[2]int][][2]int{}}
+		var sortedRoots [][2]int
+		for _, v := range rootVs {
+			sortedRoots = append(sortedRoots, fromVersion(v))
+		}
+		pr.edges[[2]int{0, mainRank}] = sortedRoots
+		multi := false
+		paths := map[int]int{}
+		for _, e := range sortedRoots {
+			pr.edges[e] = g.edges[e]
+			paths[e[0]]++
+			if paths[e[0]] > 1 {
+				multi = true
+			}
+		}
+		gs := pr.String()
+		for k := 0; k < 2; k++ {
+			reg := &reqRegistry{g: g, r: r.Sub(), delay: k == 1}
+			res := func() (res string) {
+				defer func() {
+					if e := recover(); e != nil {
+						res = fmt.Sprintf("panic: %v", e)
+					}
+				}()
+				rs := modrequirements.NewRequirements("m0.test@v0", reg, rootVs, nil)
+				mg, err := rs.Graph(context.Background())
+				if err != nil {
+					return "error " + err.Error()
+				}
+				return selString(mg.BuildList())
+			}()
+			c.Op("O", "mvs 0.99 "+gs, res)
+		}
+		c.Case("req "+gs, len(sortedRoots) > 1)
+		if multi {
+			c.Count("req/roots-with-two-versions-of-a-path")
+		} else {
+			c.Count("req/roots-single-version")
+		}
+	}
+}
+
 func runC14(c *Cfg) {
 	r := NewRng(c.Seed)
 	semverCases(c, r.Sub())
 	mvsCases(c, r.Sub())
+	reqCases(c, r.Sub())
 }
